@@ -43,7 +43,8 @@ def check(run, tier, seed, replay=None):
                        "seeded random worlds with paused ObjectSets (members missing, modified, foreign-owned, uncached) through the real "
                        "controller, and paused owners of all five phase-controller flavours through the real PhaseReconciler",
                        phase_judge="judge09p", phase_scs=pscs,
-                       extra_identities=("C09 pause not handed to a delegated phase behind an incomplete earlier phase",))
+                       extra_identities=("C09 pause not handed to a delegated phase behind an incomplete earlier phase",
+                                         "C09 a paused ObjectSet stops probing / reporting: the pass fails instead of reporting what it sees through the status"))
     if not replay:
         deployment_stage(run, tier, seed)
         # "yet keeps probing them": a paused owner reads through the dynamic cache only, so the cache must return what
